@@ -32,3 +32,16 @@ func (r *Rng) U64n(n uint64) uint64 {
 	}
 	return r.Next() % n
 }
+
+// Perm: a pseudo-random permutation of 0..n-1
+func (r *Rng) Perm(n int) []int {
+	p := make([]int, n)
+	for i := range p {
+		p[i] = i
+	}
+	for i := n - 1; i > 0; i-- {
+		j := r.Intn(i + 1)
+		p[i], p[j] = p[j], p[i]
+	}
+	return p
+}
